@@ -1202,6 +1202,19 @@ func (e *Engine) VerifyFunction(fn *ssa.Function) *FuncResult {
 			}
 		}
 		sort.Strings(bad)
+		// a heap that is not named but was written at addresses that are not statically fresh: the entry-state
+		// objects must provably keep their values (the writes hit objects this function allocated)
+		var still []string
+		for _, h := range bad {
+			if !strings.HasPrefix(w.heapSorts[h], "(Array Int ") {
+				still = append(still, h)
+				continue
+			}
+			a := fr.freshName("a")
+			cond := fmt.Sprintf("(forall ((%s Int)) (=> (oldaddr %s) (= (select %s %s) (select %s %s))))", a, a, fr.heapCur(rs, h), a, fr.heapCur(f.entry, h), a)
+			fr.assertObNoAssume(rs, "frame-heap", h, cond, fn.Pos(), "entry-state objects keep their values in "+h+" (not named in the modifies clause)")
+		}
+		bad = still
 		ob := &Obligation{Name: fr.fnName() + "#frame", Kind: "frame", Fn: fr.fnName(), Static: true, Desc: "writes are within the modifies clause"}
 		if len(bad) == 0 {
 			ob.Status = "discharged"
